@@ -12,6 +12,8 @@ def sh(cmd, cwd=None, timeout=1800):
         return 124, (e.stdout or '') + '\n[timeout]'
 
 def build_demo(W, d, meta):
+    if os.path.exists(os.path.join(d, 'build.sh')):
+        return sh('sh build.sh %s/_build/libmuscle.a demo_confirm' % W, cwd=d)
     if os.path.exists(os.path.join(d, 'demo.cpp')):
         return sh('g++ -std=gnu++17 -w -DMUSCLE_ENABLE_ZLIB_ENCODING -I%s demo.cpp %s/_build/libmuscle.a -lz -lpthread -o demo_confirm' % (W, W), cwd=d)
     if os.path.exists(os.path.join(d, 'demo.c')):
